@@ -160,17 +160,37 @@ pub fn run_c12(rep: &Report) -> i32 {
                         } else {
                             order.push(gi);
                         }
-                        for k in order {
+                        for (oi, &k) in order.iter().enumerate() {
                             let Some(want) = &fresh[k] else { continue };
                             let (r, _) = solver.solve(&db, &alpha[k].peeled.ugoal);
                             *local.entry("solve_calls".into()).or_insert(0) += 1;
                             match decode_caught(&pc.chalk, &alpha[k].peeled, r) {
                                 Caught::Ok(a) => {
                                     if &a != want {
+                                        // is the panic needed at all? the same goals in the same order on a solver
+                                        // that never saw a panic: if the answer deviates there too, this is the
+                                        // history dependence C10 reports (D16), reached through the retry sequence
+                                        let without_panic = {
+                                            let mut clean = AnySolver::new(cfg);
+                                            let mut last = None;
+                                            for &j in &order[..=oi] {
+                                                let (rj, _) = clean.solve(&*pc.chalk, &alpha[j].peeled.ugoal);
+                                                last = match decode_caught(&pc.chalk, &alpha[j].peeled, rj) {
+                                                    Caught::Ok(x) => Some(x),
+                                                    _ => None,
+                                                };
+                                            }
+                                            last
+                                        };
+                                        let same_without = without_panic.as_ref() == Some(&a);
                                         rep.violation(Violation {
                                             property: "C12".into(),
                                             kind: "wrong-answer-after-panic".into(),
-                                            site: format!("{}/{}", cfg.short(), if k == gi { "same-goal" } else { "other-goal" }),
+                                            site: if same_without {
+                                                format!("{}/same-answer-without-the-panic", cfg.short())
+                                            } else {
+                                                format!("{}/{}", cfg.short(), if k == gi { "same-goal" } else { "other-goal" })
+                                            },
                                             what: format!(
                                                 "{}: after a callback panic at db call {}/{} ({}) while solving `{}`, `{}` -> {:?}, fresh solver -> {:?}",
                                                 cfg.name(), n, n_calls, log[n - 1], g.text, alpha[k].text, a, want
